@@ -113,6 +113,23 @@ def stmts(env, closing):
         return f"let {v} := {v} + {e}\n  {rest}"
     die(f"statement starting with {t!r} in the loop body")
 
+# ---- wrapped_height: the rounding of the quotient and the bound
+mw = re.search(r"fn\s+wrapped_height\s*\(\s*&self\s*,\s*width\s*:\s*usize\s*\)\s*->\s*VisualLines\s*\{", src)
+if not mw: die("fn wrapped_height(&self, width: usize) -> VisualLines not found")
+wb = mw.end() - 1; depth = 0; wi = wb
+while True:
+    if src.startswith("//", wi): wi = src.index("\n", wi); continue
+    if src[wi] == "{": depth += 1
+    elif src[wi] == "}":
+        depth -= 1
+        if depth == 0: break
+    wi += 1
+wh = norm(src[wb:wi + 1])
+mh = re.fullmatch(r"\{letterminal_len=\(self\.padded_width\(width\)asf64/widthasf64\)\.(ceil|floor|round)\(\)asusize;usize::(max|min)\(terminal_len,(\d+)\)\.into\(\)\}", wh)
+if not mh: die("the shape of wrapped_height has changed: " + wh)
+quot = {"ceil": "((padded + width - 1) / width)", "floor": "(padded / width)", "round": "((2 * padded + width) / (2 * width))"}[mh.group(1)]
+wrapped = f"{mh.group(2)} {quot} {mh.group(3)}"
+
 term = stmts(set(VARS), None)
 if pos != len(toks): die("trailing text in the loop body")
 
@@ -121,4 +138,6 @@ with open(out, "w") as f:
     f.write("namespace IndicatifModel.Generated\n\n")
     f.write("/-- the body of `for c in s.chars()` in `padded_width`: the state `(col, padding)` after a character `w` columns wide on a\nterminal of `width` columns. Source: `" + body.replace("*/", "* /") + "` -/\n")
     f.write("def padStepSrc (width col padding w : Nat) : Nat × Nat :=\n  " + term + "\n\n")
+    f.write("/-- `wrapped_height`: `(padded_width as f64 / width as f64)." + mh.group(1) + "() as usize`, then `usize::" + mh.group(2) + "(terminal_len, " + mh.group(3) + ")`\n(the quotient of two integers below 2^53, rounded as the source says) -/\n")
+    f.write("def wrappedHeightSrc (padded width : Nat) : Nat := " + wrapped + "\n\n")
     f.write("end IndicatifModel.Generated\n")
